@@ -333,6 +333,7 @@ impl ParsedPacket {
         }
         match section {
             Section::Question => {
+                self.cached = None;
                 self.offset_question = self.offset_question.or(Some(insertion_offset));
 
                 self.offset_answers = self.offset_answers.map(|x| x + rr_len);
